@@ -4,6 +4,7 @@
 # every interleaving / sequence result is compared with the SOLO result of the engine model.
 import itertools
 import json
+import re
 import lib
 import qmodel
 import qgen
@@ -17,7 +18,7 @@ def scenario(r, kind):
     n = r.randint(1, 3)
     A = [[r.choice(['a', 'b', 'k']), str(r.randint(1, 9))] for _ in range(n)]
     B = None
-    if kind == 'select':
+    if kind in ('select', 'from_query'):
         qa = {'kind': ('select', [('expr', ('fld', 'a', 0)), ('expr', ('NR',))]), 'where': ('ne', ('fld', 'a', 0), ('lit', 'k')), 'join': None}
     elif kind == 'aggregate':
         qa = {'kind': ('select', [('expr', ('fld', 'a', 0)), ('agg', 'SUM', 'SUM', ('fld', 'a', 1)), ('agg', 'COUNT', 'count', ('lit', 1), 'star')]), 'where': None, 'join': None, 'group': [('fld', 'a', 0)]}
@@ -60,10 +61,16 @@ def scenario(r, kind):
     else:
         raise ValueError(kind)
     c = ec.make_case(r, qa, A, B)
+    if kind == 'from_query':
+        # the query names its input table (FROM T, resolved through the table registry; no caller-bound input): the keyword
+        # tables of the parser are shared by all queries of the process and must come through every earlier query unchanged
+        q = re.sub(r'(?i)\s+where\s', ' from T where ', c['q'], count=1)
+        assert q != c['q']
+        return {'q': q, 'qa': qa, 'A': A, 'B': B, 'kind': kind, 'from': True}
     return {'q': c['q'], 'qa': qa, 'A': A, 'B': B, 'kind': kind}
 
 
-KINDS = ['select', 'aggregate', 'avg_native', 'avg_string', 'named_dc', 'named_dc', 'distinct_order', 'join', 'update', 'like', 'unnest', 'named', 'named', 'runtime_error', 'parse_error']
+KINDS = ['select', 'from_query', 'from_query', 'aggregate', 'avg_native', 'avg_string', 'named_dc', 'named_dc', 'distinct_order', 'join', 'update', 'like', 'unnest', 'named', 'named', 'runtime_error', 'parse_error']
 
 
 def solo(queries):
